@@ -606,6 +606,7 @@ func manyTracks() {
 			}
 			next := make([]int, nt)
 			bad := ""
+			var lastSched int64 = -1
 			for _, e := range l.evs {
 				t := trackOf(e.data)
 				switch {
@@ -617,6 +618,11 @@ func manyTracks() {
 					bad = fmt.Sprintf("track %d went to port %s, mapped to %s", t, e.port, portOf(t))
 				case e.atUS < tr.SMF().TimeAt(exp[t][next[t]].tick):
 					bad = fmt.Sprintf("track %d message sent early", t)
+				case tr.SMF().TimeAt(exp[t][next[t]].tick) < lastSched:
+					bad = fmt.Sprintf("track %d message (scheduled at %d us) sent after one scheduled at %d us: tracks are not merged by time", t, tr.SMF().TimeAt(exp[t][next[t]].tick), lastSched)
+				}
+				if bad == "" {
+					lastSched = tr.SMF().TimeAt(exp[t][next[t]].tick)
 				}
 				if bad != "" {
 					break
